@@ -309,6 +309,7 @@ func crafted(c *core.Ctx, r *core.Rand, i int) {
 		try("ttlv", val, item(0x42000D, 2, []byte{0, 0, 0, 5, 1, 2, 3, 4}, 4, 0), "nonzero-int-padding")
 	case 1: // typed messages: unknown trailing fields inside structures, non-zero padding
 		data, t := c02.SeedMessage(r, "ttlv")
+		try("ttlv", t, data, "seed")
 		tree, err := wire.Parse(data)
 		if err != nil {
 			return
@@ -350,6 +351,7 @@ func crafted(c *core.Ctx, r *core.Rand, i int) {
 		if i%16 >= 8 {
 			data, t = c02.SeedPayload(r, "json")
 		}
+		try("json", t, data, "seed")
 		for k := 0; k < 4; k++ {
 			m := gen.JSONLexVariant(r, data)
 			try("json", t, m, "json-lexical")
@@ -362,6 +364,7 @@ func crafted(c *core.Ctx, r *core.Rand, i int) {
 		if i%16 >= 8 {
 			data, t = c02.SeedPayload(r, "xml")
 		}
+		try("xml", t, data, "seed")
 		for k := 0; k < 4; k++ {
 			m := gen.XMLLexVariant(r, data)
 			try("xml", t, m, "xml-lexical")
